@@ -115,3 +115,9 @@ def _v33(repo, mod):
     fn = repo.func(MA, "RunningTask.get_result")
     lp = find_stmt(fn, lambda s: isinstance(s, ast.While))
     return replace_node(mod, lp.test.operand.args[0], "0.25")
+
+
+@variant("C33", "running-time-on-the-wall-clock", "pynguin.master_worker.master", "C33.monotonic", "time.time() for the elapsed time (the repaired defect)")
+def _v50(repo, mod):
+    from sa.selftest.harness import text_edit
+    return text_edit(mod, "elapsed_time = time.monotonic() - self._start_time", "elapsed_time = time.time() - self._start_time")
